@@ -332,6 +332,15 @@ def annotate_loops(body, loops, unit):
                        % (iv, iv, vec, l.get('inv') or '', pat, vec, iv, l.get('body_proof', ''), inner, iv, iv))
                 body = body[:st] + new + body[close + 1:]
                 continue
+            if 'rebind' in l and l.get('cont'):
+                # R20 + R27: a by-value / helper-fed `for` whose body uses `continue` (unsupported in Verus for-loops) becomes an index
+                # `while` over the hoisted vector; the index is advanced BEFORE the body so `continue` keeps its meaning
+                h = '__h%d' % k
+                iv = '__i%d' % k
+                head = ('let %s = %s;\n let mut %s: usize = 0;\n while %s < %s.len()\n' % (h, expr, iv, iv, h))
+                body = (body[:st] + head + (l.get('inv') or '') + '\n{ let __e = &%s[%s]; %s = %s + 1; let %s = %s;' % (h, iv, iv, iv, pat, l['rebind'])
+                        + l.get('body_proof', '') + body[br + 1:])
+                continue
             if 'rebind' in l:
                 # R20: for PAT in EXPR {..}  ->  let __hK = EXPR; for __e in it: &__hK inv { let PAT = <rebind>; ..}
                 h = '__h%d' % k
